@@ -911,6 +911,38 @@ example (ρ : ExtOracle natOps) (hρ : OracleFlat ρ) (n : Nat)
     (by intro nb hnb; simp only [exModules, List.mem_cons, List.mem_nil_iff, or_false] at hnb
         rcases hnb with rfl | rfl | rfl <;> exact NoRefB.ofBool (by decide))
 
+/-! ### names as byte strings -/
+
+theorem _root_.ByteArray.toList_loop_eq (bs : ByteArray) : ∀ (i : Nat) (r : List UInt8),
+    ByteArray.toList.loop bs i r = r.reverse ++ bs.data.toList.drop i := by
+  intro i r
+  induction i, r using ByteArray.toList.loop.induct bs with
+  | case1 i r h ih =>
+    rw [ByteArray.toList.loop, if_pos h, ih]
+    have hs : i < bs.data.size := h
+    have hi : i < bs.data.toList.length := by rw [Array.length_toList]; exact hs
+    rw [List.drop_eq_getElem_cons hi, List.reverse_cons, List.append_assoc]
+    have hg : bs.get! i = bs.data.toList[i] := by
+      cases bs with
+      | mk d =>
+        show d[i]! = _
+        rw [getElem!_pos d i hs, Array.getElem_toList]
+    rw [hg]; rfl
+  | case2 i r h =>
+    rw [ByteArray.toList.loop, if_neg h]
+    have hs : ¬ i < bs.data.size := h
+    have hi : bs.data.toList.length ≤ i := by rw [Array.length_toList]; omega
+    rw [List.drop_eq_nil_of_le hi, List.append_nil]
+
+theorem _root_.ByteArray.toList_eq_data (bs : ByteArray) : bs.toList = bs.data.toList := by
+  rw [ByteArray.toList, ByteArray.toList_loop_eq]; simp
+
+/-- different names are different table keys -/
+theorem bytesOf_inj {a b : String} (h : bytesOf a = bytesOf b) : a = b := by
+  simp only [bytesOf] at h
+  rw [ByteArray.toList_eq_data, ByteArray.toList_eq_data] at h
+  exact String.toByteArray_inj.mp (ByteArray.ext (Array.toList_inj.mp h))
+
 /-- with at least one module the reference program cannot finish at level 0 (storing the first module function
 indexes a table) — the budget of level 0 is spent in the prelude, exactly as for the bundle -/
 theorem reference_level0 {N : NumOps} (ρ : ExtOracle N) (externs : List String) (mods : List (String × Block))
@@ -932,8 +964,7 @@ number of modules (none included) and every level: whenever the program with the
 sources never declare or assign `require` (`reservedOK`, needed by the no-module case). -/
 theorem bundle_refines_returned {N : NumOps} (ρ : ExtOracle N) (hρ : OracleFlat ρ) (externs : List String)
     (I : BundleInput) (n : Nat) (vs : List CVal) (tr : List Event)
-    (hnodup : (I.mods.map fun nb => bytesOf nb.1).Nodup)
-    (hcache : ∀ nb ∈ I.mods, bytesOf nb.1 ≠ bytesOf "cache")
+    (hnodup : I.names.Nodup) (hcache : "cache" ∉ I.names)
     (hres : ∀ lit nm, I.res lit = some nm → nm ∈ I.names)
     (hMv : I.M ≠ "v") (hMI : I.M ≠ implName)
     (hMr : I.M ≠ "__ref_require" ∧ I.M ≠ "__ref_modules" ∧ I.M ≠ "__ref_loaded")
@@ -941,6 +972,14 @@ theorem bundle_refines_returned {N : NumOps} (ρ : ExtOracle N) (hρ : OracleFla
     (hsrc : ∀ nb ∈ I.mods, NoRefB (D1 I.M) nb.2)
     (h : runProgram ρ n externs I.reference = .returned vs tr) :
     ∃ m, runProgram ρ m externs I.bundle = .returned vs tr := by
+  have hnd : (I.mods.map fun nb => bytesOf nb.1).Nodup := by
+    have : (I.mods.map fun nb => bytesOf nb.1) = I.names.map bytesOf := by
+      simp [BundleInput.names, List.map_map, Function.comp_def]
+    rw [this]
+    exact List.Pairwise.map bytesOf (fun a b hab e => hab (bytesOf_inj e)) hnodup
+  have hc : ∀ nb ∈ I.mods, bytesOf nb.1 ≠ bytesOf "cache" := by
+    intro nb hnb e
+    exact hcache (by rw [← bytesOf_inj e]; exact List.mem_map.mpr ⟨nb, hnb, rfl⟩)
   by_cases hne : I.mods = []
   · exact ⟨n, by rw [bundle_refines_partial_nomodules ρ hρ externs I n hne hres hentry']; exact h⟩
   · cases n with
@@ -950,9 +989,25 @@ theorem bundle_refines_returned {N : NumOps} (ρ : ExtOracle N) (hρ : OracleFla
         exact reference_level0 ρ externs _ _ (by simpa using hne)
       rw [this] at h; cases h
     | succ n =>
-      exact ⟨n + 1, by rw [bundle_refines_modules ρ hρ externs I n hne hnodup hcache hres hMv hMI hMr hentry hsrc]; exact h⟩
+      exact ⟨n + 1, by rw [bundle_refines_modules ρ hρ externs I n hne hnd hc hres hMv hMI hMr hentry hsrc]; exact h⟩
+
+-- non-vacuity of `bundle_refines_returned`: its hypotheses hold for `exModules` (names compared as Strings)
+example (ρ : ExtOracle natOps) (hρ : OracleFlat ρ) (n : Nat) (vs : List CVal) (tr : List Event)
+    (h : runProgram ρ n ["emit"] exModules.reference = .returned vs tr) :
+    ∃ m, runProgram ρ m ["emit"] exModules.bundle = .returned vs tr :=
+  bundle_refines_returned ρ hρ _ exModules n vs tr (by decide) (by decide)
+    (by intro lit nm h; simp only [exModules] at h; split at h
+        · cases h; simp [BundleInput.names, exModules]
+        · split at h
+          · cases h; simp [BundleInput.names, exModules]
+          · cases h)
+    (by decide) (by decide) (by decide) (NoRefB.ofBool (by decide)) (by decide)
+    (by intro nb hnb; simp only [exModules, List.mem_cons, List.mem_nil_iff, or_false] at hnb
+        rcases hnb with rfl | rfl | rfl <;> exact NoRefB.ofBool (by decide))
+    h
 
 end modules
+
 
 
 
